@@ -56,7 +56,11 @@ func VerifC03Literal() {
 // VerifC03Regex: Match == spec for the concrete regex / notRegex given as parameters, with the
 // literal options symbolic too. The spec side calls the regexp library without any shortcut.
 func VerifC03Regex() {
-	nl := verifChoice("namelen", 7)
+	maxlen := 6
+	if verifParam("maxlen") != "" {
+		maxlen = len(verifParam("maxlen"))
+	}
+	nl := verifChoice("namelen", maxlen+1)
 	name := verifBytes("name", nl)
 	for _, b := range name {
 		verifAssume(b < 0x80)
